@@ -420,7 +420,7 @@ class C09(fw.Property):
                     if not t.done(): t.cancel()
                 for f in env.futures.values():
                     if not f.done(): f.cancel()
-                loop.drain(); gc.collect(); loop.drain()
+                loop.drain()
                 for t in loop.tasks:
                     if t.done() and not t.cancelled(): t.exception()
         finally:
@@ -485,26 +485,30 @@ class C09(fw.Property):
         return (kind, code, v["payload"], v["cf"], v["nr"] if v["nr"] is not None else r["nr"])
 
     def expected_seq(self, inp, r):
-        """-> (kind, [(code|None, payload|None, cf|"any", no_response|None, from_exception)], completes): the responses the property text demands for
-        request r, in order, the last one final iff `completes` (a handler that never finalises is the handler's fault, not a violation)"""
+        """-> (kind, [(code|None, payload|None, cf|"any", effective no_response|None)], completes): the responses the property text demands for
+        request r, in order, the last one final iff `completes` (a handler that never finalises is the handler's fault, not a violation).
+        The No-Response option in force is the response's own, else the request's (RFC 7967; for every response, whoever built it)."""
         kind, code, payload, cf, own_nr = self.expected(inp, r)
-        if kind == "renderer-non-message": return kind, [(160, [], "any", None, True)], True
+        def eff(nr): return nr if nr is not None else r["nr"]
+        if kind == "renderer-non-message": return kind, [(160, [], "any", eff(None))], True
         if kind != "raw":
-            return kind, [(code, payload, cf if kind.startswith("return") and kind != "return-unencodable" else "any", own_nr, not kind.startswith("return"))], True
+            return kind, [(code, payload, cf if kind.startswith("return") and kind != "return-unencodable" else "any", eff(own_nr))], True
         seq = []
         for a in r["outcome"]["actions"]:
             if a[0] == "add":
                 v = a[1]
-                if v["v"] == "msg": seq.append((v["code"], v["payload"], v["cf"], v["nr"], False))
+                if v["v"] == "msg": seq.append((v["code"], v["payload"], v["cf"], eff(v["nr"])))
                 elif v["v"] != "none": continue            # add_response raises back into the handler; nothing sent
                 if a[2]: return kind, seq, True
             elif a[0] == "raise":
                 e = a[1]
                 if e["e"] == "custom" and e["tm"] != "raises" and e["tm"]["v"] == "msg":
-                    seq.append((e["tm"]["code"], e["tm"]["payload"], e["tm"]["cf"], e["tm"]["nr"], True)); return kind, seq, True
-                if e["e"] == "custom" and e["tm"] != "raises" and e["tm"]["v"] in ("other", "noresponse"): return "renderer-non-message", seq + [(160, [], "any", None, True)], True
-                if e["e"] == "cre" and not (e.get("badtext") and e["cls"] != "NoRequestInterface"): seq.append((None, None, "any", None, True))
-                else: seq.append((160, [], None, None, True))
+                    seq.append((e["tm"]["code"], e["tm"]["payload"], e["tm"]["cf"], eff(e["tm"]["nr"]))); return kind, seq, True
+                if e["e"] == "custom" and e["tm"] != "raises" and e["tm"]["v"] in ("other", "noresponse"): return "renderer-non-message", seq + [(160, [], "any", eff(None))], True
+                if e["e"] == "cre" and not (e.get("badtext") and e["cls"] != "NoRequestInterface"):
+                    c = self.expected(inp, dict(r, path=[1], code=1, outcome={"k": "raise", "exc": e}))   # code of the class, via the plain-resource table
+                    seq.append((c[1], None, "any", eff(None)))
+                else: seq.append((160, [], None, eff(None)))
                 return kind, seq, True
             else: break
         return kind, seq, False
@@ -549,15 +553,14 @@ class C09(fw.Property):
             kind, seq, completes = exp[i]; ws = got[i]
             if kind == "return-noresponse": seq = []
             visible = [x for x in seq if not hidden(x)]
-            lenient = [x for x in visible if not (x[4] and r["nr"] is not None and kind != "renderer-non-message")]     # error responses to requests carrying No-Response: sent or not, both fine
             if i in overridden or i not in finished:
                 if len(ws) > len(visible): return ("C09:count:%s:%d>%d" % (kind, len(ws), len(visible)), "request %d got %d responses although it never finished" % (i, len(ws)))
                 return None
-            if not (len(lenient) <= len(ws) <= len(visible)):
+            if len(ws) != len(visible):
                 return ("C09:count:%s:%d/%d" % (kind, len(ws), len(visible)),
                         "request %d (%s) got %d responses, %d expected (exactly one final, nothing after it)" % (i, kind, len(ws), len(visible)))
             if len(ws) == len(visible):
-                for w, (code, payload, cf, nr, _) in zip(ws, visible):
+                for w, (code, payload, cf, nr) in zip(ws, visible):
                     if code is not None and w["code"] != code: return ("C09:wrong-code:" + kind, "request %d (%s): code %d, expected %d" % (i, kind, w["code"], code))
                     if payload is not None and w["pl"] != payload: return ("C09:wrong-payload:" + kind, "request %d (%s): payload %r, expected %r" % (i, kind, bytes(w["pl"]), bytes(payload)))
                     if cf != "any" and w["cf"] != cf: return ("C09:wrong-options:" + kind, "request %d: content-format %r, expected %r" % (i, w["cf"], cf))
